@@ -54,6 +54,8 @@ impl<'a> SocketPeek<'a> {
                 }
             }
 
+            #[cfg(may_verif)]
+            may_queue::verif::point(may_queue::verif::site::IO_PEEK_EAGAIN, 0);
             if self.io_data.io_flag.load(Ordering::Relaxed) != 0 {
                 continue;
             }
@@ -80,7 +82,11 @@ impl EventSource for SocketPeek<'_> {
         // after register the coroutine, it's possible that other thread run it immediately
         // and cause the process after it invalid, this is kind of user and kernel competition
         // so we need to delay the drop of the EventSource, that's why _g is here
+        #[cfg(may_verif)]
+        may_queue::verif::point(may_queue::verif::site::IO_PEEK_SUB_ARMED, 0);
         io_data.co.store(co);
+        #[cfg(may_verif)]
+        may_queue::verif::point(may_queue::verif::site::IO_PEEK_SUB_STORED, 0);
         // till here the io may be done in other thread
 
         // there is event, re-run the coroutine
